@@ -184,6 +184,7 @@ static inline void send_anti_messages(struct process_ctx *proc_p, array_count_t 
 				msg_allocator_free_at_gvt(msg);
 			} else {
 				msg = unmark_msg_sent(msg);
+				VERIF_YIELD(31);
 				uint32_t f =
 				    atomic_fetch_add_explicit(&msg->flags, MSG_FLAG_ANTI, memory_order_relaxed);
 				VERIF_TRACE(VT_ANTI, current_lp - lps, msg, f, 0);
@@ -195,6 +196,7 @@ static inline void send_anti_messages(struct process_ctx *proc_p, array_count_t 
 			msg = array_get_at(proc_p->p_msgs, ++i);
 		}
 
+		VERIF_YIELD(32);
 		uint32_t f = atomic_fetch_add_explicit(&msg->flags, -MSG_FLAG_PROCESSED, memory_order_relaxed);
 		VERIF_TRACE(VT_UNDO, current_lp - lps, msg, f, 0);
 		if(!(f & MSG_FLAG_ANTI))
@@ -383,6 +385,7 @@ void process_msg(void)
 		lp->p.bound = unlikely(array_is_empty(lp->p.p_msgs)) ? -1.0 : lp->p.bound;
 	}
 
+	VERIF_YIELD(30);
 	uint32_t flags = atomic_fetch_add_explicit(&msg->flags, MSG_FLAG_PROCESSED, memory_order_relaxed);
 	VERIF_TRACE(VT_PROC, msg, flags, lp - lps, 0);
 	if(unlikely(flags & MSG_FLAG_ANTI)) {
